@@ -270,6 +270,12 @@ func cmdCheck(args []string) int {
 	noEvidence := fs.Bool("no-evidence", false, "do not write the evidence file (debug)")
 	workers := fs.Int("workers", 16, "workers")
 	fs.Parse(args)
+	if os.Getenv("VERIF_REPO") != "" {
+		*noEvidence = true // evidence only ever comes from /repo itself
+	}
+	if w, err := strconv.Atoi(os.Getenv("VERIF_WORKERS")); err == nil && w > 0 {
+		*workers = w
+	}
 	if os.Getenv("VERIF_TIER") != "" && *tier == "" {
 		*tier = os.Getenv("VERIF_TIER")
 	}
